@@ -124,9 +124,8 @@ def run_case(args):
         card_x = sorted({round(10 ** rng.uniform(-3, -0.15), 4) for _ in range(nx - 1)} | {1.0})
         while len(card_x) < 3:
             card_x = sorted(set(card_x) | {round(10 ** rng.uniform(-3, -0.15), 4)})
-        lo = card_x[0]
-        tgt_x = sorted({round(lo * (1 / lo) ** rng.uniform(0.1, 0.9), 4) for _ in range(rng.choice([2, 3]))})
-        tgt_x = [x for x in tgt_x if all(abs(x - y) > 0.05 * y for y in card_x)] or [round(math.sqrt(lo), 4)]
+        mids = [round(math.sqrt(a * b), 5) for a, b in zip(card_x, card_x[1:])]
+        tgt_x = sorted(rng.sample(mids, rng.choice([2, len(mids)])))
         xtable = sorted(set(card_x) | (set(tgt_x) if tgt else set()))
         rec["xs"] = [rank(x, xtable, 1e-9) for x in card_x]
         rec["tx"] = [rank(x, xtable, 1e-9) for x in (tgt_x if tgt else card_x)]
@@ -146,6 +145,9 @@ def run_case(args):
         operator.mugrid = [(scales[q - 1], nf) for q, nf in eg]
         members = rng.choice([1, 2, 3])
         pdfs = [ToyPDF(rng) for _ in range(members)]
+        extra["concrete"] = {"scales": scales, "mugrid": [list(x) for x in operator.mugrid], "card_x": card_x,
+                             "target_x": tgt_x if tgt else None, "scheme": theory.heavy.masses_scheme.name,
+                             "order": list(theory.order), "members": members}
 
         # ---- synthetic eko through the real store --------------------------------------------
         nrng = np.random.default_rng(seed)
@@ -206,6 +208,7 @@ def run_case(args):
             "alphaQs": [rank(float(q), qtable, 1e-9) for q in info["AlphaS_Qs"]],
             "members": int(info["NumMembers"]),
         }
+        extra["concrete"].update({k: info[k] for k in ("QMin", "QMax", "XMin", "XMax", "AlphaS_Qs", "NumMembers")})
         rec["blocks"] = [{"qs": [rank(q, qtable, 2e-6) for q in b["qs"]], "xs": [rank(x, xtable, 2e-6) for x in b["xs"]]}
                          for b in parsed[0]]
         rec["gridsSame"] = all([(b["qs"], b["xs"], b["pids"]) for b in p] == [(b["qs"], b["xs"], b["pids"]) for b in parsed[0]] for p in parsed)
@@ -284,10 +287,6 @@ def run_case(args):
                 sys.modules.pop("lhapdf", None)
             else:
                 sys.modules["lhapdf"] = had
-        extra["concrete"] = {"scales": scales, "mugrid": [list(x) for x in operator.mugrid], "card_x": card_x,
-                             "target_x": tgt_x if tgt else None, "QMin": info["QMin"], "QMax": info["QMax"],
-                             "XMin": info["XMin"], "XMax": info["XMax"], "AlphaS_Qs": info["AlphaS_Qs"],
-                             "scheme": theory.heavy.masses_scheme.name, "order": list(theory.order), "members": members}
         return rec, extra
     finally:
         tempfile.tempdir = oldtmp
